@@ -541,4 +541,140 @@ theorem inBox_gather {n : Nat} {p : List Nat} (hp : IsPerm n p) {idx ns : List N
 theorem prodL_gather {n : Nat} {p : List Nat} (hp : IsPerm n p) {ns : List Nat} (hns : ns.length = n) :
     prodL (gather 0 ns p) = prodL ns := prodL_perm (gather_perm 0 ns hp hns)
 
+/-- the map `pos ↦ npos` the routine computes for (row-major) axis lengths `ns` and argument `p` -/
+def nposOf (ns p : List Nat) (pos : Nat) : Nat :=
+  npos (rowMajor (gather 0 ns p)) (rowMajor ns) ns (iperm ns.length p) pos
+
+theorem nposOf_eq {n : Nat} {p : List Nat} (hp : IsPerm n p) {ns : List Nat} (hns : ns.length = n) (pos : Nat) :
+    nposOf ns p pos = flat (gather 0 ns p) (gather 0 (digits ns pos) p) := by
+  unfold nposOf
+  rw [hns]
+  exact npos_eq_flat hp (iperm_length n p) (iperm_inv hp) ns hns pos
+
+theorem nposOf_lt {n : Nat} {p : List Nat} (hp : IsPerm n p) {ns : List Nat} (hns : ns.length = n) {pos : Nat}
+    (h : pos < prodL ns) : nposOf ns p pos < prodL ns := by
+  rw [nposOf_eq hp hns, ← prodL_gather hp hns]
+  exact flat_lt _ _ (inBox_gather hp hns (digits_inBox ns pos (by omega)))
+
+theorem digits_nposOf {n : Nat} {p : List Nat} (hp : IsPerm n p) {ns : List Nat} (hns : ns.length = n) {pos : Nat}
+    (h : pos < prodL ns) : digits (gather 0 ns p) (nposOf ns p pos) = gather 0 (digits ns pos) p := by
+  rw [nposOf_eq hp hns]
+  exact digits_flat _ _ (inBox_gather hp hns (digits_inBox ns pos (by omega)))
+
+/-- relocating with `p` and then with a `q` such that `p[q[k]] = k` brings every position back -/
+theorem nposOf_roundtrip {n : Nat} {p q : List Nat} (hp : IsPerm n p) (hq : IsPerm n q) (hinv : Inv n q p)
+    {ns : List Nat} (hns : ns.length = n) {pos : Nat} (h : pos < prodL ns) :
+    nposOf (gather 0 ns p) q (nposOf ns p pos) = pos := by
+  have htn : (gather 0 ns p).length = n := by simp [gather_length, hp.length]
+  rw [nposOf_eq hq htn, digits_nposOf hp hns h, gather_gather 0 ns hp hq hns hinv,
+    gather_gather 0 _ hp hq (by simp [digits_length, hns]) hinv]
+  exact flat_digits ns pos h
+
+/-! ## scatter loop -/
+
+theorem scatterLoop_length {C} (f : Nat → Nat) : ∀ (cs : List C) (pos : Nat) (acc : List C),
+    (scatterLoop f cs pos acc).length = acc.length
+  | [], _, _ => rfl
+  | c :: cs, pos, acc => by simp [scatterLoop, scatterLoop_length f cs]
+
+theorem scatterLoop_not_hit {C} (f : Nat → Nat) (j : Nat) : ∀ (cs : List C) (pos : Nat) (acc : List C),
+    (∀ k < cs.length, f (pos + k) ≠ j) → (scatterLoop f cs pos acc)[j]? = acc[j]?
+  | [], _, _, _ => rfl
+  | c :: cs, pos, acc, h => by
+    have h0 : f pos ≠ j := by simpa using h 0 (by simp)
+    have ih := scatterLoop_not_hit f j cs (pos+1) (acc.set (f pos) c) (by
+      intro k hk
+      have := h (k+1) (by simpa using hk)
+      rwa [show pos + (k + 1) = pos + 1 + k by omega] at this)
+    simp [scatterLoop, ih, List.getElem?_set, h0]
+
+theorem scatterLoop_hit {C} (f : Nat → Nat) : ∀ (cs : List C) (pos : Nat) (acc : List C),
+    (∀ a b, a < cs.length → b < cs.length → f (pos + a) = f (pos + b) → a = b) →
+    (∀ k < cs.length, f (pos + k) < acc.length) →
+    ∀ k (hk : k < cs.length), (scatterLoop f cs pos acc)[f (pos + k)]? = some cs[k]
+  | [], _, _, _, _, k, hk => by simp at hk
+  | c :: cs, pos, acc, hinj, hlt, k, hk => by
+    cases k with
+    | zero =>
+      simp only [scatterLoop, Nat.add_zero, List.getElem_cons_zero]
+      rw [scatterLoop_not_hit f (f pos) cs (pos+1) _ (by
+        intro k hk' e
+        have := hinj (k+1) 0 (by simpa using hk') (by simp) (by
+          rw [show pos + (k + 1) = pos + 1 + k by omega]; simpa using e)
+        omega)]
+      have := hlt 0 (by simp)
+      simp only [Nat.add_zero] at this
+      simp [List.getElem?_set, this]
+    | succ k =>
+      simp only [scatterLoop, List.getElem_cons_succ]
+      have := scatterLoop_hit f cs (pos+1) (acc.set (f pos) c) (by
+          intro a b ha hb e
+          have := hinj (a+1) (b+1) (by simpa using ha) (by simpa using hb) (by
+            rw [show pos + (a + 1) = pos + 1 + a by omega, show pos + (b + 1) = pos + 1 + b by omega]; exact e)
+          omega)
+        (by
+          intro j hj
+          have := hlt (j+1) (by simpa using hj)
+          rw [show pos + (j + 1) = pos + 1 + j by omega] at this
+          simpa using this)
+        k (by simpa using hk)
+      rw [show pos + (k + 1) = pos + 1 + k by omega]
+      exact this
+
+/-! ## the routine on a well-formed table -/
+
+variable {K E C : Type}
+
+/-- the invariants of a table in memory that the routine relies on -/
+structure WF (T : PTable K E C) : Prop where
+  pos : 0 < T.ndim
+  order : T.order.length = T.ndim
+  naxes : T.naxes.length = T.ndim
+  nknots : T.nknots.length = T.ndim
+  knots : T.knots.length = T.ndim
+  extents : T.extents.length = T.ndim
+  periods : ∀ p, T.periods = some p → p.length = T.ndim
+  strides : T.strides = rowMajor T.naxes
+  coef : T.coef.length = prodL T.naxes
+
+theorem permuteBody_eq [Inhabited K] [Inhabited E] (junk : C) {T : PTable K E C} (hT : WF T) {p : List Nat}
+    (hp : IsPerm T.ndim p) :
+    permuteBody junk T p =
+      { ndim := T.ndim
+        order := gather 0 T.order p
+        naxes := gather 0 T.naxes p
+        strides := rowMajor (gather 0 T.naxes p)
+        nknots := gather 0 T.nknots p
+        knots := gather default T.knots p
+        extents := gather default T.extents p
+        periods := T.periods.map fun a => gather default a p
+        coef := scatterLoop (nposOf T.naxes p) T.coef 0 (List.replicate (prodL T.naxes) junk) } := by
+  have hpl := hp.length
+  have hg : ∀ {α} (d : α) (a : List α), (gather d a p).length = T.ndim := by
+    intro α d a; simp [gather_length, hpl]
+  have hne : gather 0 T.naxes p ≠ [] := by
+    intro e; have := hg 0 T.naxes; rw [e] at this; have := hT.pos; simp at *; omega
+  have hnc : (rowMajor (gather 0 T.naxes p)).getD 0 0 * (gather 0 T.naxes p).getD 0 0 = prodL T.naxes := by
+    rw [← prodL_gather hp hT.naxes]
+    cases hc : gather 0 T.naxes p with
+    | nil => exact absurd hc hne
+    | cons a l => exact rowMajor_head_mul a l
+  have hper : (T.periods.map fun a => copyN (gather default a p) T.ndim a)
+      = T.periods.map fun a => gather default a p := by
+    cases hpp : T.periods with
+    | none => rfl
+    | some a => simp [copyN_eq _ _ _ (hg default a) (hT.periods a hpp)]
+  have hsl : (scatterLoop (nposOf T.naxes p) T.coef 0 (List.replicate (prodL T.naxes) junk)).length
+      = prodL T.naxes := by simp [scatterLoop_length]
+  unfold permuteBody
+  simp only [newStrides_eq _ hne, hnc, hper]
+  rw [copyN_eq _ _ _ (hg 0 T.order) hT.order, copyN_eq _ _ _ (hg 0 T.naxes) hT.naxes,
+    copyN_eq _ _ _ (hg 0 T.nknots) hT.nknots, copyN_eq _ _ _ (hg default T.knots) hT.knots,
+    copyN_eq _ _ _ (hg default T.extents) hT.extents,
+    copyN_eq _ _ _ (by simp [rowMajor_length, hg]) (by rw [hT.strides, rowMajor_length, hT.naxes])]
+  have htake : T.coef.take (prodL T.naxes) = T.coef := by rw [← hT.coef, List.take_length]
+  have hnp : npos (rowMajor (gather 0 T.naxes p)) T.strides T.naxes (iperm T.ndim p) = nposOf T.naxes p := by
+    funext pos; unfold nposOf; rw [hT.strides, hT.naxes]
+  rw [htake, hnp, copyN_eq _ _ _ hsl hT.coef]
+
 end PsV.Permute
